@@ -416,6 +416,7 @@ class Acl(AceGroup):
                     group_by=group_by,
                     protocol_nr=self._protocol_nr,
                     port_nr=self._port_nr,
+                    max_ncwb=self.max_ncwb,
                     name=group_name,
                     items=aces_items,
                 )
